@@ -92,6 +92,7 @@ def exec_tie(r, n, bin_="c02", mode="exec"):
         jobs.append(("%s_x_%d" % (bin_, si), HDR + "Definition cases : list xcase := [\n%s\n].\nEval vm_compute in (xcodes_from 400 0%%N cases).\n" % body))
     res = coq_eval_many(jobs, timeout=900)
     bad, unk = [], 0
+    outside = set()
     for si, (rc2, o) in enumerate(res):
         if rc2 != 0:
             r.broken_obligation("tie-eval", "Coq evaluation of an exec shard failed", o[-1500:])
@@ -100,10 +101,21 @@ def exec_tie(r, n, bin_="c02", mode="exec"):
         for i in range(0, len(ints) - 1, 2):
             if ints[i + 1] == 3:
                 unk += 1
+                outside.add(si * shard + ints[i])
             else:
                 bad.append(cases[si * shard + ints[i]])
+    # input distribution: how often each construct occurs in programs the model runs completely
+    import re as _re
+    constructs = {}
+    for tag, pat in [("do", "⍢"), ("both_subscript", "∩[₁₃₄]"), ("un_both", "°∩"), ("on_subscript", "⟜[₂₃]"),
+                     ("try_three_functions", r"⍣\([^()]*\|[^()]*\|"), ("try_two", r"⍣\("), ("switch", "⨬"), ("repeat", "⍥"),
+                     ("rows_each_table_reduce", "[≡∵⊞/]\\("), ("under", "⍜"), ("fork_bracket", "[⊃⊓]"), ("call", r"F[a-c]")]:
+        inm = sum(1 for i, c in enumerate(cases) if i not in outside and _re.search(pat, c["src"]))
+        alln = sum(1 for c in cases if _re.search(pat, c["src"]))
+        constructs[tag] = {"programs": alln, "run_by_the_model": inm}
     r.coverage["tie_exec"] = {"kind": "C", "programs": len(cases), "mismatches": len(bad), "outside_model": unk,
-                              "ok_runs": sum(1 for c in cases if c["code"] == 0), "error_runs": sum(1 for c in cases if c["code"] == 1)}
+                              "ok_runs": sum(1 for c in cases if c["code"] == 0), "error_runs": sum(1 for c in cases if c["code"] == 1),
+                              "constructs": constructs}
     r.log("exec tie: %d programs, %d mismatches, %d outside the model" % (len(cases), len(bad), unk))
     for c in cases[:2]:
         r.sample({"program": c["src"], "impl": {"ok": c["code"] == 0, "stack_top_first": c["stack"]}})
